@@ -138,11 +138,14 @@ class ExprGen:
             return ["bnot", self.boolean(depth - 1)]
         if k < 94 and self.ok("bite"):
             return ["bite", self.boolean(depth - 1), self.boolean(depth - 1), self.boolean(depth - 1)]
+        if k < 97 and self.beq_ok:
+            return ["beq", self.boolean(depth - 1), self.boolean(depth - 1)]
         return self.cmp(depth - 1)
 
     # --- shapes claripy special-cases
     simple = False
     concrete_pct = 0  # extra share of variable-free constraints (true / false / const == const)
+    beq_ok = True  # Boolean equality between comparisons
 
     def constraint(self, ref: EnumRef | None = None):
         r = self.r
@@ -315,7 +318,7 @@ DEFAULT_WEIGHTS = {
     "merge": 0, "combine": 0, "split": 0, "unsat_core": 0, "pickle": 0, "pickle_expr": 0, "g_truth": 0, "new": 0,
     "add_replacement": 0, "split_recombine": 0, "merge3": 0,
     # multi-step shapes random walks rarely produce (DESIGN 9.6.1); cheap, so on everywhere with a small weight
-    "exhaust_batch": 2, "span_branch_add": 0, "late_unsat": 2, "bridge_split": 0, "split_cross": 0, "branch_simplify_add": 0, "pairwise_derive": 0, "drop_reuse": 1, "double_branch": 1, "remove_replacement": 0,
+    "exhaust_batch": 2, "span_branch_add": 0, "late_unsat": 2, "bridge_split": 0, "split_cross": 0, "branch_simplify_add": 0, "pairwise_derive": 0, "drop_reuse": 1, "double_branch": 1, "remove_replacement": 0, "branch_replacement": 0,
 }
 
 QUERY_KINDS = ("sat", "probe", "eval", "batch_eval", "min", "max", "solution", "is_true", "is_false")
@@ -558,6 +561,67 @@ class HistoryGen:
         self.exact_arg(h, op)
         return op
 
+    def concrete_truth(self):
+        """a VARIABLE-FREE comparison whose operands claripy does not fold at construction (one leaf carries a
+        simplification-avoidance annotation): the cheap truth check has to evaluate it with its concrete backend.  The
+        generator knows the value (the evaluator needs no variables for it) and writes a true or a false comparison."""
+        from .spec import compile_spec
+
+        r = self.r
+        if r.chance(25):
+            pool = ["", "a", "ab", "abc", "b", "a.c", "a*", "zz"]
+            a, b = r.choice(pool), r.choice(pool)
+            k = r.below(100)
+            if k < 40:
+                return [r.choice(["seq", "sne"]), ["noelim", ["sconst", a]], ["sconst", r.choice([a, b])]]
+            if k < 60:
+                return ["scontains", ["noelim", ["sconst", a + b]], ["sconst", r.choice([a, b, "q"])]]
+            if k < 80:
+                return [r.choice(["sprefix", "ssuffix"]), ["sconst", r.choice([a, b])], ["noelim", ["sconst", a + b]]]
+            return ["seq", ["sconcat", ["noelim", ["sconst", a]], ["sconst", b]], ["sconst", r.choice([a + b, b + a])]]
+        w = r.choice([8, 16, 32, 64, 64, 65, 128])
+        m = (1 << w) - 1
+
+        def c():
+            v = r.weighted([(0, 1), (1, 2), (m, 2), (1 << (w - 1), 2), ((1 << (w - 1)) + 1, 2), ((1 << min(w - 1, 62)) + 1, 3), (-1, 6)])
+            if v == -1:
+                v = r.next() & m if w <= 64 else ((r.next() << 64) | r.next()) & m
+            return ["const", v & m, w]
+
+        def tree(d):
+            if d <= 0 or r.chance(35):
+                return c()
+            op = r.weighted([("add", 3), ("sub", 3), ("mul", 2), ("and", 2), ("or", 2), ("xor", 2), ("udiv", 3), ("urem", 3), ("sdiv", 5),
+                             ("srem", 5), ("shl", 2), ("lshr", 2), ("ashr", 3)])
+            a, b = tree(d - 1), tree(d - 1)
+            if op in ("udiv", "urem", "sdiv", "srem"):
+                b = c()
+                if b[1] == 0:
+                    b = ["const", 3, w]
+            if op in ("shl", "lshr", "ashr"):
+                b = ["const", r.below(w + 2) & m, w]
+            return [op, a, b]
+
+        t = tree(r.range(1, 2))
+        # exactly one leaf is kept from folding
+        def mark(sp):
+            if sp[0] == "const":
+                return ["noelim", sp]
+            i = 1 if r.chance(60) else 2
+            out = list(sp)
+            out[i] = mark(sp[i])
+            return out
+
+        t = mark(t)
+        v = int(compile_spec(t, {}, [])())
+        k = r.below(100)
+        if k < 45:
+            return ["eq", t, ["const", v if r.chance(55) else (v ^ (1 << r.below(w))), w]]
+        if k < 65:
+            return ["ne", t, ["const", v if r.chance(50) else (v + 1) & m, w]]
+        other = c()
+        return [r.choice(["ult", "ule", "ugt", "uge", "slt", "sle", "sgt", "sge"]), t, other]
+
     def truth_template(self, h, want_valid):
         """a tautology (or, for is_false, a contradiction) that claripy's own rewriting does not fold: the cheap truth
         check has to ask its backend, so True is the informative answer"""
@@ -641,7 +705,10 @@ class HistoryGen:
         elif kind == "backend_downsize":
             op = {"op": "backend_downsize", "which": r.choice(["z3", "z3", "concrete", "vsa"])}
         elif kind == "g_truth":
-            e = r.choice(self.recent_cs) if (self.recent_cs and r.chance(60)) else self.eg.boolean(r.range(0, 2))
+            if r.chance(self.p.get("concrete_truth_pct", 0)):
+                e = self.concrete_truth()
+            else:
+                e = r.choice(self.recent_cs) if (self.recent_cs and r.chance(60)) else self.eg.boolean(r.range(0, 2))
             op = {"op": r.choice(["g_is_true", "g_is_false"]), "e": e, "how": r.choice(["module", "method"])}
         elif kind == "merge":
             op = self.gen_merge(hi, h, live)
@@ -676,6 +743,9 @@ class HistoryGen:
             return
         elif kind == "split_cross":
             self.macro_split_cross(hi, h)
+            return
+        elif kind == "branch_replacement":
+            self.macro_branch_replacement(hi, h, live)
             return
         elif kind == "drop_reuse":
             self.macro_drop_reuse(hi, h, live)
@@ -1153,6 +1223,33 @@ class HistoryGen:
         if r.chance(50):
             self.emit(self.query_op(r.choice(["probe", "eval"]), hi, h))
 
+    def macro_branch_replacement(self, hi, h, live):
+        """SolverReplacement: branch, then a replacement registered on ONE side (with and without invalidating the cache),
+        then the other side is asked about the replaced variable"""
+        r = self.r
+        if h.cls != "SolverReplacement" or len(live) >= self.max_handles + 1:
+            return
+        op = self.add_replacement_op(hi, h)
+        if op is None:
+            return
+        self.emit({"op": "branch", "h": hi})
+        bi = len([z for z in self.handles if z.alive]) - 1
+        writer, reader = (bi, hi) if r.chance(50) else (hi, bi)
+        op["h"] = writer
+        if r.chance(60):
+            op["invalidate_cache"] = False
+        n = op["var"]
+        w = self.vars[n]
+        self.emit(op)
+        for _ in range(r.range(1, 3)):
+            k = r.choice(["eval", "max", "min", "solution"])
+            if k == "eval":
+                self.emit({"op": "eval", "h": reader, "e": ["var", n], "n": (1 << w) + 1, "extra": []})
+            elif k == "solution":
+                self.emit({"op": "solution", "h": reader, "e": ["var", n], "v": (op["value"] + 1) % (1 << w), "extra": []})
+            else:
+                self.emit({"op": k, "h": reader, "e": r.choice([["var", n], ["add", ["var", n], ["const", 1, w]]]), "signed": False, "extra": []})
+
     def macro_merge3(self, hi, h, live):
         """C15: a three-way merge in which two participants share state (branches of one base) and the third has an
         unrelated history that constrains the same variables differently"""
@@ -1538,7 +1635,7 @@ PROFILES = {
         "approx_first_always_exact": True,
         "dup_in_list_pct": 12,
         "echo_pct": 20,
-        "weights": {"pickle": 2, "downsize": 4, "branch": 6, "add_replacement": 3, "remove_replacement": 2},
+        "weights": {"pickle": 2, "downsize": 4, "branch": 6, "add_replacement": 3, "remove_replacement": 2, "branch_replacement": 3},
         "pickle_modes": ["replace"],
     },
     "C13approx": {
@@ -1593,7 +1690,7 @@ PROFILES = {
         "frontends": ALL_EXACT,
         "length": (5, 40),
         "weights": {"branch": 14, "downsize": 4, "simplify": 6, "pickle": 1, "span_branch_add": 4, "late_unsat": 3, "add_replacement": 2,
-                    "branch_simplify_add": 5, "drop_reuse": 3, "double_branch": 4},
+                    "branch_simplify_add": 5, "drop_reuse": 3, "double_branch": 4, "branch_replacement": 4},
         "pickle_modes": ["replace"],
         "never_swarm_out": ("branch",),
         "sweep_pct": 70,
@@ -1631,6 +1728,7 @@ PROFILES = {
         "weights": {"is_true": 16, "is_false": 16, "g_truth": 22, "add": 22, "branch": 4, "backend_downsize": 4, "forget": 3,
                     "eval": 4, "min": 2, "max": 2, "solution": 2, "batch_eval": 1, "probe": 3, "sat": 3, "new": 3},
         "never_swarm_out": ("g_truth", "is_true", "is_false"),
+        "concrete_truth_pct": 35,
         "extra_pct": 20,
         "hybrid_exact": [None, True],
         "approx_ops_allowed": APPROX_CORE_OPS,
